@@ -10,6 +10,7 @@ import Rbql.Model.Sources
 import Rbql.Model.Parse
 import Rbql.Model.ParseJs
 import Rbql.Model.Translate
+import Rbql.Model.Cli
 import Driver.Codec
 import Driver.EngineOps
 open Rbql Driver
@@ -141,6 +142,16 @@ def stepTranslate (ws : List String) : Option String :=
         | .ok l => "ok " ++ " ".intercalate (l.map encColInfo)
         | .error (.noOpening c) => "err open " ++ encStr [c]
         | .error (.noClosing c) => "err close " ++ encStr [c])
+  | ["clidialect", d, pol, fmt] =>
+    -- which dialects `python -m rbql` hands to query_csv (Model/Cli.lean)
+    let decP (s : String) : Option CliPolicy := match s with
+      | "simple" => some .simple | "quoted" => some .quoted | "quoted_rfc" => some .quotedRfc
+      | "whitespace" => some .whitespace | "monocolumn" => some .monocolumn | _ => none
+    let encP : CliPolicy → String
+      | .simple => "simple" | .quoted => "quoted" | .quotedRfc => "quoted_rfc" | .whitespace => "whitespace" | .monocolumn => "monocolumn"
+    let f : OutFormat := match fmt with | "csv" => .csv | "tsv" => .tsv | "monocolumn" => .monocolumn | _ => .input
+    let r := cliDialects (decStr d) (decP pol) f
+    some s!"{encStr r.inDelim} {encP r.inPolicy} {encStr r.outDelim} {encP r.outPolicy}"
   | ["unquotestr", s] => some (match unquoteString (decStr s) with | some v => "S" ++ encStr v | none => "N")
   | _ => none
 
